@@ -3,6 +3,7 @@ package core
 import (
 	stdErrors "errors"
 	"fmt"
+	"strings"
 
 	schema "github.com/jsightapi/jsight-schema-core"
 	"github.com/jsightapi/jsight-schema-core/kit"
@@ -49,7 +50,80 @@ func (core *JApiCore) compileUserTypes() *jerr.JApiError {
 	err := core.userTypes.Each(func(k string, _ schema.Schema) error {
 		return core.checkUserType(k)
 	})
-	return adoptError(err)
+	if je := adoptError(err); je != nil {
+		return je
+	}
+
+	return core.checkRootTypeRecursion()
+}
+
+// checkRootTypeRecursion rejects a user type which is an alias of itself, directly
+// or through other aliases, i.e. "TYPE @a" with the body "@a // {nullable: true}".
+// Such a type has no actual root type and everything which looks for it (the Path
+// and Headers checks) would never stop.
+func (core *JApiCore) checkRootTypeRecursion() *jerr.JApiError {
+	roots := map[string][]string{}
+	var names []string
+	_ = core.userTypes.Each(func(k string, s schema.Schema) error {
+		js, ok := s.(*jschema.JSchema)
+		if !ok {
+			return nil
+		}
+		an, err := js.GetAST()
+		if err != nil {
+			return nil //nolint:nilerr // The schema has been checked already.
+		}
+		names = append(names, k)
+		roots[k] = rootTypeReferences(an)
+		return nil
+	})
+
+	const (
+		inProgress = 1
+		done       = 2
+	)
+	state := map[string]int{}
+	var visit func(n string) bool
+	visit = func(n string) bool {
+		switch state[n] {
+		case inProgress:
+			return true
+		case done:
+			return false
+		}
+		state[n] = inProgress
+		for _, r := range roots[n] {
+			if visit(r) {
+				return true
+			}
+		}
+		state[n] = done
+		return false
+	}
+
+	for _, n := range names {
+		if visit(n) {
+			return core.rawUserTypes.GetValue(n).BodyError(fmt.Sprintf("%s (%s)", jerr.UserTypeRootRecursion, n))
+		}
+	}
+	return nil
+}
+
+// rootTypeReferences returns the name of the user type of which the schema is an
+// alias: the body "@a" with or without rules. The alternatives of "@a | @b" are
+// not followed: the schema library accepts a union which mentions itself.
+func rootTypeReferences(an schema.ASTNode) []string {
+	if an.TokenType != schema.TokenTypeShortcut {
+		return nil
+	}
+	v := strings.TrimSpace(an.Value)
+	if !strings.HasPrefix(v, "@") || strings.Contains(v, "|") {
+		return nil
+	}
+	if _, ok := an.Rules.Get("or"); ok {
+		return nil
+	}
+	return []string{v}
 }
 
 func (core *JApiCore) buildUserTypes() *jerr.JApiError {
